@@ -81,13 +81,15 @@ CLAIMED = {
         "other",
     ),
     "C15": (
-        "Decides the formula and the selection semantics for all inputs: inside the single pass over the table the numerator "
-        "receives min(1, ratio) x population and the denominator population in one basic block (zero-initialised, written "
-        "nowhere else, all skips before them), returned in slots 1-3; the selection function, abstractly evaluated on lists "
-        "of 0-3 symbolic codes for every '!'-pattern, returns the documented inclusion/exclusion lists and the caller applies "
-        "them; iso3 and country are unique in the shipped table. 0 <= aggregate <= 1 follows for a non-negative ratio.",
+        "Decides the formula and the selection semantics for all inputs: one iteration of the country loop is evaluated for a "
+        "symbolic row and symbolic running totals; on every feasible path a country is either left out for a stated reason "
+        "(not selected, NaN population, failed optimisation) with totals and results untouched, or adds its population to the "
+        "denominator, min(1, ratio) x population to the numerator and its result once under its name; totals start at zero and "
+        "are returned as such; the selection function, evaluated on lists of 0-3 symbolic codes for every '!'-pattern, returns "
+        "the documented inclusion/exclusion lists, does not modify its argument, and the YAML runner hands the file's own list "
+        "over unchanged; iso3 and country are unique in the shipped table. 0 <= aggregate <= 1 follows for a non-negative ratio.",
         "ratio non-negative (objective lowBound 0, C01) and finite (NaN rows are skipped). " + TRUST,
-        "block-structure/def-use rules on the ast + abstract evaluation of the selection function over symbolic list shapes",
+        "per-path abstract evaluation of the loop body and of the selection function over symbolic list shapes; mutation/flow rules",
         "other",
     ),
     "C17": (
@@ -166,7 +168,7 @@ CLAIMED = {
         "priority order (descending net kcals per slaughter hour) with balances reset first and leftovers threaded correctly, "
         "month m's supply offered and offered - left recorded. The 120-month trajectory is not analysed.",
         "Supplies, requirement and herd size non-negative; efficiencies positive. " + TRUST,
-        "abstract evaluation with guard-derived sign reasoning per leaf; structural order rules over the ast",
+        "abstract evaluation with guard-derived sign reasoning per leaf; provenance traces of the feeding pass and of one generic month (events, not statement text); hidden-state (memoisation / lazy-cache) analysis",
         "other",
     ),
     "C06": (
@@ -177,7 +179,7 @@ CLAIMED = {
         "slaughter rate = min(need, remaining hours)/hours-per-head, budget = class baseline capacity recomputed monthly, reduced "
         "by what was applied and asserted >= 0. The 120-month trajectory and data-dependent signs are NOT decided.",
         "Target size, allocated rate >= 0; hours per head > 0. " + TRUST,
-        "abstract evaluation with guard-derived reasoning per leaf; def-use/statement-order rules over the month loop",
+        "abstract evaluation with guard-derived reasoning per leaf; provenance traces of the population step and of one generic month; must-execute rule for the per-animal passes; hidden-state analysis",
         "other",
     ),
     "C08": (
